@@ -100,7 +100,7 @@ def run_case(ctx, n):
     nops, nres = rng.choice([(2, 2), (3, 2), (2, 3), (3, 3), (3, 3)])
     prios = tuple(rng.choice([1, 1, 2, 3]) for _ in range(nops))
     pre = tuple(rng.random() < 0.3 for _ in range(nres))
-    alpha = alphabet(nops, nres)
+    alpha = alphabet(nops, nres) + [("advance", o) for o in range(nops)]     # phase transitions (controller.advance) in any order
     weights = [6 if a[0] == "acquire" else 1 for a in alpha]
     seq = rng.choices(alpha, weights=weights, k=rng.randint(6, 12))
     if rng.random() < 0.25:
@@ -189,7 +189,8 @@ def drive(ctx, n, nops, nres, prios, pre, seq, strategy):
                             v, ctxs[v].priority, {m: ctxs[m].priority for m in members}))
                         return
                 else:
-                    if born[v] != min(born[m] for m in members):
+                    # judged on the operations' real creation stamps (ties: any oldest member is acceptable)
+                    if ctxs[v].created_at != min(ctxs[m].created_at for m in members):
                         viol("victim-not-oldest", "victim %s is not the oldest member of %s" % (v, members))
                         return
                 still = [r for r, o in owners().items() if o == v]
@@ -230,6 +231,10 @@ def drive(ctx, n, nops, nres, prios, pre, seq, strategy):
                     continue
                 ok = ctl.release_resource(ctxs[o], r)
                 trace.append(["release", o, r, ok])
+            elif kind == "advance":
+                ctl.advance(ctxs[o])
+                ctx.count("phase_advances")
+                trace.append(["advance", o, ctxs[o].phase.value])
             elif kind == "complete":
                 if o in waiting:
                     continue
